@@ -86,6 +86,11 @@ fn params(c: &Case) -> BaseBandModulationParams {
     match c.ldro_mode {
         1 => p.ldro = false,
         2 => p.ldro = true,
+        // a value that went through its serde form (persisted radio settings) computes the same airtime; a
+        // document that does not read back leaves zeroed parameters behind, which the reference then exposes
+        3 => {
+            p = serde_json::to_string(&p).ok().and_then(|s| serde_json::from_str(&s).ok()).unwrap_or(p);
+        }
         _ => {}
     }
     p
@@ -140,7 +145,7 @@ pub fn run(tier: Tier, replay: Option<&str>) {
         replay_exit("C16", path, sigs);
     }
     let ctx = Ctx::new("C16", tier);
-    let ldro_modes: &[u8] = if tier.thorough() { &[0, 1, 2] } else { &[0] };
+    let ldro_modes: &[u8] = if tier.thorough() { &[0, 1, 2, 3] } else { &[0] };
     let preambles: Vec<i32> = if tier.thorough() { (-1..=255).collect() } else { vec![-1, 0, 8, 255] };
     let mut groups = vec![];
     for sf in 0..8 {
@@ -190,7 +195,7 @@ pub fn run(tier: Tier, replay: Option<&str>) {
     let coverage = json!({
         "evaluations": ctx.evals(),
         "distinct_nontrivial": nontrivial.load(Ordering::Relaxed),
-        "rule": "full cartesian product SF(8) x BW(10) x CR(4) x LDRO mode x header mode x preamble set x len 0..=255; every tuple is a distinct input; non-trivial = payload numerator 8PL-4SF+44-20H > 0 (payload adds symbols beyond the fixed 8)",
+        "rule": "full cartesian product SF(8) x BW(10) x CR(4) x LDRO mode (automatic, forced off, forced on, automatic after a serde round trip of the value) x header mode x preamble set x len 0..=255; every tuple is a distinct input; non-trivial = payload numerator 8PL-4SF+44-20H > 0 (payload adds symbols beyond the fixed 8)",
         "samples": samples,
         "exhaustive": true,
         "monotonicity_edges_checked": edges.load(Ordering::Relaxed),
